@@ -371,3 +371,63 @@ func specEncode(p *specPkt) []byte {
 	out = append(out, specVarint(len(body))...)
 	return append(out, body...)
 }
+
+// specConnectClass classifies a first packet per DESIGN.md appendix A.3:
+// 0 = acceptable CONNECT, 1 = well-formed CONNECT with unsupported protocol
+// name/level, 2 = well-formed CONNECT with unacceptable client identifier,
+// 3 = anything else (other type, malformed, truncated, trailing garbage),
+// 4 = don't-care (non-minimal remaining-length encoding).
+// For classes 0..2 the packet occupies exactly buf.
+func specConnectClass(buf []byte) (class int, p specPkt) {
+	typ, flags, remlen, hdr, fok := specFrame(buf)
+	if !fok && len(buf) >= 3 && buf[1]&0x80 != 0 {
+		// a remaining length that is not in its shortest form: MQTT 3.1.1 does not
+		// forbid it explicitly - don't-care (class 4)
+		return 4, p
+	}
+	if !fok || typ != specCONNECT || flags != 0 || len(buf) != hdr+remlen {
+		return 3, p
+	}
+	c := &specCur{b: buf[hdr:], ok: true}
+	p.Typ = typ
+	p.Proto = c.lp()
+	p.Level = c.u8()
+	p.CFlags = c.u8()
+	p.KeepAlive = c.u16()
+	p.ClientID = c.lp()
+	if !c.ok {
+		return 3, p
+	}
+	f := p.CFlags
+	will := f&0x04 != 0
+	wq := (f >> 3) & 3
+	if f&1 != 0 || wq > 2 || (!will && (wq != 0 || f&0x20 != 0)) || (f&0x80 == 0 && f&0x40 != 0) {
+		return 3, p
+	}
+	if will {
+		p.WillTopic = c.lp()
+		p.WillMsg = c.lp()
+	}
+	if f&0x80 != 0 {
+		if c.ok && c.i == len(c.b) {
+			return 4, p // user-name flag without the field: 3.1-style leniency the library documents; don't-care
+		}
+		p.User = c.lp()
+	}
+	if f&0x40 != 0 {
+		if c.ok && c.i == len(c.b) {
+			return 4, p // password flag without the field: don't-care
+		}
+		p.Pass = c.lp()
+	}
+	if !c.done() {
+		return 3, p
+	}
+	if !specProtoOK(p.Proto, p.Level) {
+		return 1, p
+	}
+	if (len(p.ClientID) == 0 && f&0x02 == 0) || !specClientIDOK(p.ClientID) {
+		return 2, p
+	}
+	return 0, p
+}
